@@ -16,7 +16,7 @@
 From Coq Require Import List Bool ZArith NArith Lia.
 Import ListNotations.
 From Verif Require Import C07.Model C07.Spec C07.Mach C07.Proofs C07.Sem C07.Sem2 C07.Partial
-                          C07.Drivers C07.Lazy C07.Corr C07.Refuted.
+                          C07.Drivers C07.Lazy C07.Corr C07.Refuted C07.PipeProofs.
 
 (** ** Composition *)
 Theorem C07_comp : forall A B C (x1 : xform A B) (x2 : xform B C) m1 m2,
@@ -191,6 +191,22 @@ Proof. exact @lazy_mapcat_ref. Qed.
 Theorem C07_lazy_form_iterate : forall A n (g : A -> A) x, iterate_take n g x = ref_iterate n g x.
 Proof. exact @iterate_take_ref. Qed.
 
+(** ** The concrete model checked by the correspondence meets the prescription: every
+    pipeline built from the stage syntax of C07/Corr.v that does not compare elements
+    (no distinct / dedupe / partition-by; take-nth and partition-all with n >= 1), every
+    input, bounded or unbounded source, all five application forms *)
+Theorem C07_pipeline_model_meets_spec : forall pipe input limit, pipe_ok pipe = true ->
+  spec_ok (CPipe pipe input limit) (model (CPipe pipe input limit)) = true.
+Proof. exact model_case_meets_spec. Qed.
+Theorem C07_pipeline_denotes : forall pipe, pipe_ok pipe = true -> denotes (xf_pipe pipe) (sem_pipe pipe).
+Proof. exact pipe_denotes. Qed.
+Theorem C07_iterate_model_meets_spec : forall n table dflt x,
+  spec_ok (CIterate n table dflt x) (model (CIterate n table dflt x)) = true.
+Proof. exact model_iterate_meets_spec. Qed.
+Example C07_pipe_ok_nontrivial :
+  pipe_ok [SPartAll 2%N; SCat; SInterpose (VKw 4%N); STake 3%N; SMapIdx 0%N; SMapcat 2%N] = true.
+Proof. exact eq_refl. Qed.
+
 Print Assumptions C07_comp.
 Print Assumptions C07_comp_guarded.
 Print Assumptions C07_map.
@@ -242,3 +258,7 @@ Print Assumptions C07_lazy_form_distinct_refuted.
 Print Assumptions C07_lazy_form_dedupe.
 Print Assumptions C07_lazy_form_mapcat.
 Print Assumptions C07_lazy_form_iterate.
+Print Assumptions C07_pipeline_model_meets_spec.
+Print Assumptions C07_pipeline_denotes.
+Print Assumptions C07_iterate_model_meets_spec.
+Print Assumptions C07_pipe_ok_nontrivial.
